@@ -82,7 +82,9 @@ Reachable(c) ==
     IN CASE c.client \in {"from", "alias"} -> {<<(IF c.client = "alias" THEN "c_" \o p[1] ELSE p[1]), p[2]>> : p \in {q \in fn : Public(q[1])}}
          [] c.client = "star" ->
                 LET mine == {p \in Star(ns, "none") : p[2].n # "<module>"}
-                IN IF c.variant = "twostars" THEN Bind(ExtraNS, mine) ELSE mine      \* from extra import * ; from outer import *
+                IN IF c.variant = "twostars" THEN Bind(ExtraNS, mine)                  \* from extra import * ; from outer import *
+                   ELSE IF c.variant = "basestar" THEN Bind({p \in Star(BaseNS, c.ball) : TRUE}, mine)   \* from base import * ; from outer import *
+                   ELSE mine
          [] c.client \in {"module", "modalias"} -> {<<p[1], p[2]>> : p \in {q \in fn : Public(q[1])}}
          [] OTHER -> {}
 
@@ -92,6 +94,7 @@ Cases == [ball : BaseAlls, mid : MidForms, top : TopForms, client : ClientForms,
 Sensible(c) == /\ c.uses \subseteq Names(Reachable(c))
                /\ (c.pkg # "flat" => c.mid # "module")         \* `import pkg.impl` inside the package __init__ is a different story
                /\ (c.variant = "twostars" => c.client = "star" /\ "beta" \in c.uses)
+               /\ (c.variant = "basestar" => c.client = "star" /\ c.pkg = "flat" /\ "alpha" \in c.uses)
                /\ (c.variant = "unused" => c.client \in {"from", "alias"} /\ Names(Reachable(c)) \ c.uses # {})
 
 Resolve(c) == {p \in Reachable(c) : p[1] \in c.uses}
@@ -120,6 +123,7 @@ StdCatalogue == {
     [id |-> "import_os_path",      bind |-> "os",          obj |-> "mod:os"],
     [id |-> "import_conc_futures", bind |-> "concurrent",  obj |-> "mod:concurrent"],        \* concurrent.futures must stay imported
     [id |-> "import_xml_minidom",  bind |-> "xml",         obj |-> "mod:xml"],               \* xml.dom.minidom likewise
+    [id |-> "import_xml_etree",    bind |-> "xml",         obj |-> "mod:xml"],               \* same name, same object, another sub-module
     [id |-> "from_os_path",        bind |-> "path",        obj |-> "mod:os.path"],
     [id |-> "from_sys_path",       bind |-> "path",        obj |-> "sys.path"],
     [id |-> "import_json_as_j",    bind |-> "j",           obj |-> "mod:json"],
@@ -137,5 +141,5 @@ LastBinding(q, name) == LET S == {i \in 1..Len(q) : q[i].bind = name} IN q[CHOOS
 StdCases == [stmts : StdSeqs, place : StdPlaces]
 InitStd == c \in StdCases
 DumpStd == PrintT(<<"@@J", ToJson([stmts |-> [i \in 1..Len(c.stmts) |-> c.stmts[i].id], place |-> c.place,
-                                    resolve |-> SetToSeq({<<n, LastBinding(c.stmts, n)>> : n \in {c.stmts[i].bind : i \in 1..Len(c.stmts)}})])>>)
+                                    resolve |-> [i \in 1..Len(c.stmts) |-> <<c.stmts[i].id, LastBinding(c.stmts, c.stmts[i].bind)>>]])>>)
 =============================================================================
